@@ -32,7 +32,7 @@ def has_stop(t):
 def classify(term):
     """Known finding: split() does not store a stopped signal of its predecessor."""
     def walk(t):
-        if t["op"] in ("split1", "split2") and has_stop(t["s"]):
+        if t["op"] in ("split1", "split2", "split2r") and has_stop(t["s"]):
             return True
         return any(walk(t[k]) for k in ("s", "a", "b") if k in t)
     return "SplitStoppedNotStored" if walk(term) else None
@@ -158,7 +158,7 @@ def run():
     # the shared-state adaptors race the predecessor's completion against the consumer's start: repeat
     # the small terms that contain them many times with delays injected at the ss.* hooks
     def shared(t):
-        return t["op"] in ("ensure_started", "split1", "split2") or any(shared(t[k]) for k in ("s", "a", "b") if k in t)
+        return t["op"] in ("ensure_started", "split1", "split2", "split2r") or any(shared(t[k]) for k in ("s", "a", "b") if k in t)
 
     def size(t):
         return 1 + sum(size(t[k]) for k in ("s", "a", "b") if k in t)
